@@ -20,6 +20,11 @@ What is mirrored (file:function of /repo/src):
   `Expr::Consume`, `Expr::Swap`, `Expr::Update` (`x{i = v}`: `set_index` on a clone of the handle), and
   a builtin call on a variable's value (`x append v`) → `step`
 
+Dicts (`Seq::Dict` without default, integer keys) are allocations with a key list next to the value
+payload: `set_index`'s dict arm (`make_mut`, then `insert` at the last level / `get_mut` above it),
+`modify_existing_index`'s (`entry`: a missing key raises), `index` (`get`), `try_remove_index`
+(`make_mut` + `remove`), and the type errors of `pop` / `append` on a dict are mirrored.
+
 A `&mut Obj` slot is modelled by moving the value out of the slot (slot := null), transforming the
 owned value, and moving the result back; no evaluation happens while a slot is borrowed in the Rust, so
 this is unobservable.  The cost ledger (`copied`, `pushes`) is the C02 part of the model.
@@ -40,6 +45,10 @@ inductive Val where
 structure Alloc where
   payload : List Val
   rc : Nat
+  /-- `none`: a list (`Seq::List`); `some ks`: a dict (`Seq::Dict`, no default) whose i-th key is
+  `ks[i]` and whose i-th value is `payload[i]` (insertion order; a `HashMap` has no order, every
+  observation sorts by key) -/
+  keys : Option (List Int)
   deriving Repr, Inhabited
 
 /-- the heap: allocations by id (ids are never reused) and the C02 cost ledger -/
@@ -63,14 +72,23 @@ def payloadOf (h : Heap) (id : Nat) : List Val :=
   | some a => a.payload
   | none => []
 
+def keysOf (h : Heap) (id : Nat) : Option (List Int) :=
+  match h.allocs[id]? with
+  | some a => a.keys
+  | none => none
+
 def setAlloc (h : Heap) (id : Nat) (a : Alloc) : Heap :=
   { h with allocs := h.allocs.set id a }
 
 def setPayload (h : Heap) (id : Nat) (p : List Val) : Heap :=
-  setAlloc h id ⟨p, rcOf h id⟩
+  setAlloc h id ⟨p, rcOf h id, keysOf h id⟩
+
+/-- replace values and keys of a dict allocation (insert / remove a key) -/
+def setEntries (h : Heap) (id : Nat) (p : List Val) (ks : List Int) : Heap :=
+  setAlloc h id ⟨p, rcOf h id, some ks⟩
 
 def setRc (h : Heap) (id : Nat) (n : Nat) : Heap :=
-  setAlloc h id ⟨payloadOf h id, n⟩
+  setAlloc h id ⟨payloadOf h id, n, keysOf h id⟩
 
 /-- `Obj::clone`: cloning a list handle bumps the strong count; atoms are copied -/
 def dup (h : Heap) (v : Val) : Heap :=
@@ -87,7 +105,7 @@ def dropVal : Nat → Heap → Val → Heap
   | 0, h, _ => h
   | f + 1, h, .ref id =>
     if rcOf h id ≤ 1 then
-      (payloadOf h id).foldl (dropVal f) (setAlloc h id ⟨[], 0⟩)
+      (payloadOf h id).foldl (dropVal f) (setAlloc h id ⟨[], 0, none⟩)
     else setRc h id (rcOf h id - 1)
   | _ + 1, h, _ => h
 
@@ -95,7 +113,11 @@ def drop (h : Heap) (v : Val) : Heap := dropVal (h.allocs.length + 1) h v
 
 /-- allocate a fresh list with strong count 1; returns the heap and the new id -/
 def alloc (h : Heap) (p : List Val) : Heap × Nat :=
-  ({ h with allocs := h.allocs ++ [⟨p, 1⟩] }, h.allocs.length)
+  ({ h with allocs := h.allocs ++ [⟨p, 1, none⟩] }, h.allocs.length)
+
+/-- allocate a fresh dict with strong count 1 -/
+def allocDict (h : Heap) (ks : List Int) (p : List Val) : Heap × Nat :=
+  ({ h with allocs := h.allocs ++ [⟨p, 1, some ks⟩] }, h.allocs.length)
 
 /-- `Rc::make_mut` on the allocation behind an owned handle: returns the id that the handle points to
 afterwards, which has strong count 1. -/
@@ -104,7 +126,7 @@ def makeMut (h : Heap) (id : Nat) : Heap × Nat :=
   else
     let p := payloadOf h id
     let h1 := bumpAll (setRc h id (rcOf h id - 1)) p
-    ({ allocs := h1.allocs ++ [⟨p, 1⟩], copied := h1.copied + p.length, pushes := h1.pushes },
+    ({ allocs := h1.allocs ++ [⟨p, 1, keysOf h id⟩], copied := h1.copied + p.length, pushes := h1.pushes },
      h.allocs.length)
 
 /-- core.rs `pythonic_index_isize` -/
@@ -112,6 +134,21 @@ def pyIndex (len : Nat) (i : Int) : Option Nat :=
   if 0 ≤ i ∧ i < len then some i.toNat
   else if i < 0 ∧ 0 ≤ i + len then some (i + len).toNat
   else none
+
+/-- position of a key in a dict's key list -/
+def keyPos : List Int → Int → Option Nat
+  | [], _ => none
+  | k :: ks, i => if k = i then some 0 else (keyPos ks i).map (· + 1)
+
+/-- the payload position addressed by index / key `i` in allocation `id`: Python's index rule for a
+list (`pythonic_index`), key lookup for a dict (`HashMap::get`) -/
+def slotOf (h : Heap) (id : Nat) (i : Int) : Option Nat :=
+  match keysOf h id with
+  | none => pyIndex (payloadOf h id).length i
+  | some ks =>
+    match keyPos ks i with
+    | some j => if j < (payloadOf h id).length then some j else none
+    | none => none
 
 /-- result of transforming a slot: new heap, new slot value, a result value handed to the caller
 (popped / removed / consumed element), and whether the operation succeeded (`false` = it raised) -/
@@ -121,52 +158,83 @@ structure WalkRes where
   r : Val
   ok : Bool
 
-/-- `set_index` / `modify_existing_index` on an owned slot value, list arms: at every level
-`Rc::make_mut(v)` first, then `pythonic_mut` (so a failing index still un-shares the level), then
-recursion into the element slot. -/
-def walk (leaf : Heap → Val → WalkRes) : Heap → Val → List Int → WalkRes
-  | h, v, [] => leaf h v
+/-- a leaf action of `walk`: what happens to the addressed slot, and (for `set_index` only) the value
+that is inserted when the LAST index is a dict key that is not present (`mut_d.insert(k, value)`) -/
+structure Leaf where
+  act : Heap → Val → WalkRes
+  ins : Option Val
+
+/-- the slot is missing (after `make_mut`): `set_index`'s dict arm inserts the key when it is the last
+index (`mut_d.insert(k, value)`); every other case raises (index out of range, missing key) -/
+def walkMissing (leaf : Leaf) (h0 : Heap) (id1 : Nat) (i : Int) (rest : List Int) : WalkRes :=
+  match keysOf h0 id1, rest, leaf.ins with
+  | some ks, [], some new => ⟨setEntries h0 id1 (payloadOf h0 id1 ++ [new]) (ks ++ [i]), .ref id1, .null, true⟩
+  | _, _, _ => ⟨h0, .ref id1, .null, false⟩
+
+/-- `set_index` / `modify_existing_index` on an owned slot value: at every level `Rc::make_mut(v)`
+first, then the slot is located (`pythonic_mut` for a list — so a failing index still un-shares the
+level — `get_mut` / `entry` for a dict), then recursion into the element slot.  `set_index`'s dict arm
+inserts a missing key at the last level; everywhere else a missing key raises. -/
+def walk (leaf : Leaf) : Heap → Val → List Int → WalkRes
+  | h, v, [] => leaf.act h v
   | h, .ref id, i :: rest =>
     let m := makeMut h id
     let p := payloadOf m.1 m.2
-    match pyIndex p.length i with
-    | none => ⟨m.1, .ref m.2, .null, false⟩
+    match slotOf m.1 m.2 i with
     | some j =>
       let c := p.getD j .null
       let h1 := setPayload m.1 m.2 (p.set j .null)
       let w := walk leaf h1 c rest
       ⟨setPayload w.h m.2 ((payloadOf w.h m.2).set j w.v), .ref m.2, w.r, w.ok⟩
+    | none => walkMissing leaf m.1 m.2 i rest
   | h, v, _ :: _ => ⟨h, v, .null, false⟩
 
 /-- leaf of `set_index(.., [], Some(value))`: `*lhs = value` (the old value is dropped) -/
-def setLeaf (new : Val) (h : Heap) (old : Val) : WalkRes := ⟨drop h old, new, .null, true⟩
+def setLeaf (new : Val) : Leaf := ⟨fun h old => ⟨drop h old, new, .null, true⟩, some new⟩
 
 /-- leaf of `Expr::Consume`: `mem::take` -/
-def takeLeaf (h : Heap) (old : Val) : WalkRes := ⟨h, .null, old, true⟩
+def takeLeaf : Leaf := ⟨fun h old => ⟨h, .null, old, true⟩, none⟩
 
-/-- leaf of `Expr::Pop`: `Obj::try_pop` = `Rc::make_mut(xs).pop()` -/
-def popLeaf (h : Heap) (v : Val) : WalkRes :=
+/-- `Obj::try_pop` = `Rc::make_mut(xs).pop()` on a list; any other kind (a dict too) raises -/
+def popAct (h : Heap) (v : Val) : WalkRes :=
   match v with
   | .ref id =>
-    let m := makeMut h id
-    let p := payloadOf m.1 m.2
-    match p.getLast? with
-    | some x => ⟨setPayload m.1 m.2 p.dropLast, .ref m.2, x, true⟩
-    | none => ⟨m.1, .ref m.2, .null, false⟩
-  | _ => ⟨h, v, .null, false⟩
-
-/-- leaf of `Expr::Remove` with an index: `try_remove_index` = bounds check first, then
-`Rc::make_mut(xs).remove(ii)` -/
-def removeLeaf (i : Int) (h : Heap) (v : Val) : WalkRes :=
-  match v with
-  | .ref id =>
-    match pyIndex (payloadOf h id).length i with
-    | none => ⟨h, v, .null, false⟩
-    | some j =>
+    match keysOf h id with
+    | some _ => ⟨h, v, .null, false⟩
+    | none =>
       let m := makeMut h id
       let p := payloadOf m.1 m.2
-      ⟨setPayload m.1 m.2 (p.eraseIdx j), .ref m.2, p.getD j .null, true⟩
+      match p.getLast? with
+      | some x => ⟨setPayload m.1 m.2 p.dropLast, .ref m.2, x, true⟩
+      | none => ⟨m.1, .ref m.2, .null, false⟩
   | _ => ⟨h, v, .null, false⟩
+
+/-- leaf of `Expr::Pop` -/
+def popLeaf : Leaf := ⟨popAct, none⟩
+
+/-- `try_remove_index`: on a list the bounds check comes first, then `Rc::make_mut(xs).remove(ii)`;
+on a dict `Rc::make_mut(xs).remove(&key)` (the copy happens even when the key is missing) -/
+def removeAct (i : Int) (h : Heap) (v : Val) : WalkRes :=
+  match v with
+  | .ref id =>
+    match keysOf h id with
+    | none =>
+      match pyIndex (payloadOf h id).length i with
+      | none => ⟨h, v, .null, false⟩
+      | some j =>
+        let m := makeMut h id
+        let p := payloadOf m.1 m.2
+        ⟨setPayload m.1 m.2 (p.eraseIdx j), .ref m.2, p.getD j .null, true⟩
+    | some ks =>
+      let m := makeMut h id
+      let p := payloadOf m.1 m.2
+      match slotOf m.1 m.2 i with
+      | none => ⟨m.1, .ref m.2, .null, false⟩
+      | some j => ⟨setEntries m.1 m.2 (p.eraseIdx j) (ks.eraseIdx j), .ref m.2, p.getD j .null, true⟩
+  | _ => ⟨h, v, .null, false⟩
+
+/-- leaf of `Expr::Remove` with an index / key -/
+def removeLeaf (i : Int) : Leaf := ⟨removeAct i, none⟩
 
 /-- `set_index(slot, path, Some(new))` on an owned slot value; `new` is owned and is dropped when the
 walk raises before reaching the leaf (the Rust drops `value` on `Err`). -/
@@ -179,7 +247,7 @@ returns a clone of the element.  `none` = raised (the handle is dropped). -/
 def readPath : Heap → Val → List Int → Heap × Option Val
   | h, v, [] => (h, some v)
   | h, .ref id, i :: rest =>
-    match pyIndex (payloadOf h id).length i with
+    match slotOf h id i with
     | none => (drop h (.ref id), none)
     | some j =>
       let c := (payloadOf h id).getD j .null
@@ -191,9 +259,12 @@ argument raises (both arguments dropped). -/
 def appendOp (h : Heap) (a b : Val) : Heap × Option Val :=
   match a with
   | .ref id =>
-    let m := makeMut h id
-    let h1 := setPayload m.1 m.2 (payloadOf m.1 m.2 ++ [b])
-    ({ h1 with pushes := h1.pushes + 1 }, some (.ref m.2))
+    match keysOf h id with
+    | none =>
+      let m := makeMut h id
+      let h1 := setPayload m.1 m.2 (payloadOf m.1 m.2 ++ [b])
+      ({ h1 with pushes := h1.pushes + 1 }, some (.ref m.2))
+    | some _ => (drop (drop h a) b, none)
   | _ => (drop h b, none)
 
 /-! ### statements -/
@@ -209,6 +280,8 @@ inductive Rhs where
   | atom (a : Atom)
   | list (as : List Atom)
   | rep (a : Atom) (n : Nat)
+  /-- a dict literal `{k1: a1, k2: a2, …}` with integer keys (distinct) -/
+  | dict (kvs : List (Int × Atom))
   deriving Repr, Inhabited
 
 inductive Stmt where
@@ -276,6 +349,10 @@ def evalRhs (s : State) : Rhs → Heap × Val
     let h2 := bumpAll m1.1 (List.replicate n r.2)
     let m2 := alloc h2 (List.replicate n r.2)
     (drop m2.1 (.ref m1.2), .ref m2.2)
+  | .dict kvs =>
+    let r := evalAtoms s s.h (kvs.map (·.2))
+    let m := allocDict r.1 (kvs.map (·.1)) r.2
+    (m.1, .ref m.2)
 
 /-- write a cell: `*ptr = value`, dropping the old value -/
 def writeCell (h : Heap) (cells : List Val) (x : Nat) (v : Val) : State :=
